@@ -102,6 +102,18 @@ pub fn fctrl_byte(d: &DataDesc) -> u8 {
 }
 
 /// Encodes a data frame. `nwk`/`app` are the session keys.
+/// `encode_data` with the three RFU bits of the MHDR (bits 4..2) set to `rfu`: still an authentic
+/// frame of the same type and direction (the MIC covers the MHDR as sent).
+pub fn encode_data_rfu(d: &DataDesc, nwk: &[u8; 16], app: &[u8; 16], rfu: u8) -> Result<Vec<u8>, BuildErr> {
+    let mut out = encode_data(d, nwk, app)?;
+    let n = out.len();
+    out[0] |= (rfu & 7) << 2;
+    let dir = if is_uplink_mtype(d.mtype) { 0 } else { 1 };
+    let mic = data_mic(nwk, &out[..n - 4], dir, d.dev_addr, d.fcnt);
+    out[n - 4..].copy_from_slice(&mic);
+    Ok(out)
+}
+
 pub fn encode_data(d: &DataDesc, nwk: &[u8; 16], app: &[u8; 16]) -> Result<Vec<u8>, BuildErr> {
     if d.f_opts.len() > 15 {
         return Err(BuildErr::FOptsTooLong);
